@@ -31,7 +31,7 @@ HASHSEEDS = ["0", "1", "2", "31337", "random"]
 
 def cases(tier, seed):
     rng = random.Random(f"C19/{seed}")
-    groups = 40 if tier == "quick" else 400
+    groups = 60 if tier == "quick" else 400
     cl = [("gadget", 5), ("inputs", 3), ("overlap-maa", 1), ("rand", 2), ("dense-neg", 1)]
     models = gen.models_up_to(12 if tier == "quick" else 16)
     out = []
